@@ -135,6 +135,22 @@ def bounded(rep, tier, seed):
                 # is no rule to override and no warning is due
                 if n_ not in names_warned and venv.classify_node(n_, fno[n_]) != "time_conversion":
                     bad.append({"what": f"{d}: supplying {n_} (overrides a {venv.classify_node(n_, fno[n_])}) is not announced by FunctionsAndColumnsOverlapWarning", "node": n_, "date": d, "kind": "warning"})
+            # date-valued nodes: the same values in every resolution pandas can hold
+            if col.dtype.kind == "M":
+                for unit in ("ns", "us", "ms", "s"):
+                    data = pop.copy()
+                    data[n_] = pd.Series(col.to_numpy()).astype(f"datetime64[{unit}]").to_numpy()
+                    tg = sorted((set(defaults) | (desc_all.get(n_) or set())) - {n_})
+                    try:
+                        res, w = apirel.simulate(e, data, targets=tg)
+                    except Exception as ex:  # noqa: BLE001
+                        bad.append({"what": f"{d}: supplying the computed column {n_} as datetime64[{unit}] makes the call fail: {ex!r}"[:300], "node": n_, "date": d})
+                        continue
+                    n_eval += 1
+                    distinct.add((d, n_, f"datetime64[{unit}]"))
+                    diff = apirel.compare_frames(allv, res, tg, rtol=1e-12, atol=1e-9)
+                    if diff:
+                        bad.append({"what": f"{d}: supplying {n_} with the values the system computes, stored as datetime64[{unit}], changes {diff[:4]}", "node": n_, "date": d, "form": f"datetime64[{unit}]"})
             # U: the supplied values are used, not silently ignored
             if col.dtype.kind in "fi" and not n_.endswith("_id"):
                 data = pop.copy()
